@@ -237,3 +237,6 @@ for _e in list(NOT_APPLICABLE):
 CHECKS["C07"]["exhaustive_subspace"] = {"probe": "exhaustive_alphabet", "size": (16 + 256 + 4096) * 12, "what": "all chains of <= 3 elements over the 16-spec alphabet x 12 worlds (seeds 0..52415)"}
 CHECKS["C18"]["exhaustive_subspace"] = {"probe": "exhaustive", "size": 2 * 7381, "what": "absent + all preload files of 0-4 lines over the 9-line alphabet, with and without final newline (seeds 0..14761)"}
 CHECKS["C19"]["exhaustive_subspace"] = {"probe": "exhaustive", "size": 2 * 7381, "what": "same enumeration as C18, operation sequences disable,status,enable,disable / enable,disable"}
+
+for _p in ("C09", "C17", "C10"):
+    CHECKS[_p]["shrink_budget"] = (600, 300)     # plans with threads and an explicit schedule need more candidate runs
